@@ -127,3 +127,11 @@ Section KeyedL.
     rewrite Hg. destruct (key x =? id); cbn; auto.
   Qed.
 End KeyedL.
+
+Lemma NoDup_app_single {A} (l : list A) x : NoDup l -> ~ In x l -> NoDup (l ++ [x]).
+Proof.
+  induction l as [|y t IH]; cbn; intros Hn Hx; [constructor; [tauto|constructor]|].
+  inversion Hn; subst. constructor.
+  - rewrite in_app_iff. cbn. intros [H|[H|[]]]; [contradiction|subst; tauto].
+  - apply IH; tauto.
+Qed.
